@@ -13,7 +13,7 @@ C13  Relationship matrices match their definitions and algebraic laws
 """
 import ast
 
-from sa.astutil import dump, where, kwargs_of, walk_no_nested, field_of
+from sa.astutil import dump, where, kwargs_of, walk_no_nested, field_of, is_guard
 from sa.model import body_nodoc
 from sa.vn import VN, Poly, VNUnknown, comparable
 from sa.dtypes import DtypeScan
@@ -162,7 +162,29 @@ def check_estimators(prog, rep):
                         else:
                             rep.unrec("R1-estimators", construct, "ploidy-%d branch not modelled" % pl)
                         done.add(pl)
-                    node = node.orelse[0] if len(node.orelse) == 1 and isinstance(node.orelse[0], ast.If) else None
+                    nxt = node.orelse[0] if len(node.orelse) == 1 and isinstance(node.orelse[0], ast.If) else None
+                    if nxt is None and node.orelse:
+                        # a plain `else` is the remaining ploidy when a guard above admits only the modelled ploidies
+                        left = sorted(set(MOLECULAR) - done)
+                        guarded = any(is_guard(g) and isinstance(g.test, ast.Compare) and len(g.test.ops) == 1 and isinstance(g.test.ops[0], ast.NotIn) and dump(g.test.left) in PL
+                                      and isinstance(g.test.comparators[0], (ast.List, ast.Tuple, ast.Set))
+                                      and sorted(getattr(x, "value", None) for x in g.test.comparators[0].elts) == sorted(MOLECULAR) for g in body_nodoc(f.node))
+                        if len(left) == 1 and guarded:
+                            pl = left[0]
+                            sub = VN(prog, f, env=dict(vn0.env))
+                            for s_ in node.orelse:
+                                sub.stmt(s_)
+                            got = sub.env.get(MN)
+                            r = VN(prog, f, env={"X": vn0.env.get(XN)}).expr(ast.parse(MOLECULAR[pl], mode="eval").body)
+                            if got == r:
+                                rep.ok("R1-estimators", construct + "#ploidy%d" % pl, "molecular coancestry (ploidy %d, else branch) == %s" % (pl, MOLECULAR[pl]))
+                            elif got is not None and comparable(got, r):
+                                rep.violate("R1-estimators", construct, "molecular coancestry for ploidy %d normalises to %s; the definition is %s" % (pl, got.show()[:160], r.show()[:160]),
+                                            where(f, node), MOLECULAR[pl], got.show()[:160])
+                            else:
+                                rep.unrec("R1-estimators", construct, "ploidy-%d branch not modelled" % pl)
+                            done.add(pl)
+                    node = nxt
                 continue
             if isinstance(st, ast.Assign) and (isinstance(st.value, ast.IfExp) or dump(st.value.func if isinstance(st.value, ast.Call) else st.value) == "cls"):
                 continue
